@@ -248,6 +248,9 @@ func genNsCase(rng *rand.Rand, n int, g *nsGen) SrvCase {
 	for i := 0; i < n; i++ {
 		c.Ops = append(c.Ops, g.next())
 	}
+	// one history in four travels over one record-marking connection served by the real connection loop
+	// (framing, per-call credential, peer address) instead of one HandleCall per request
+	c.Cfg.ViaConn = rng.Intn(4) == 0
 	return c
 }
 
